@@ -73,6 +73,9 @@ def pullback(src, dst_shape, src_of):
 def run_shard(spec, R):
     import darsia
 
+    import contextlib
+    import io
+
     from vf.attach import attach_post
     from vf.checks import c01
     from vf.gen.images import rng_for
@@ -187,6 +190,23 @@ def run_shard(spec, R):
                         key="C09:rotation_inverse_composed_in_forward_order" if (dim == 3 and int(np.sum(np.asarray(cur["rotation"]) != 0)) >= 2) else None, group=f"{dim}d/update")
                 R.count("parameter_update_histories")
 
+        # ---- an object that already carries a scaling other than 1 is fitted as an isometry to exactly isometric data
+        if dim == 2 and n % 6 == 0:
+            Af = darsia.AffineTransformation(2)
+            Af.set_parameters(translation=rng.uniform(-3, 3, size=2), scaling=float(rng.choice([0.5, 2.0, 3.0])), rotation=rng.uniform(-1, 1, size=1))
+            th = float(rng.uniform(-1.0, 1.0))
+            Rm = np.array([[np.cos(th), -np.sin(th)], [np.sin(th), np.cos(th)]])
+            tt = rng.uniform(-5, 5, size=2)
+            Ps = rng.uniform(-10, 10, size=(6, 2))
+            Pd = Ps @ Rm.T + tt
+            with contextlib.redirect_stdout(io.StringIO()):
+                okf, _ = R.guarded("fit", lambda: Af.fit(darsia.make_coordinate(Ps), darsia.make_coordinate(Pd), {"isometry": True, "tol": 1e-14, "maxiter": 20000}))
+            if okf:
+                got_f = np.asarray(Af(darsia.make_coordinate(Ps)), float)
+                err_f = float(np.max(np.abs(got_f - Pd)))
+                d_in, d_out = np.linalg.norm(Ps[0] - Ps[1]), np.linalg.norm(got_f[0] - got_f[1])
+                R.check(err_f <= 1e-4 and abs(d_out - d_in) <= 1e-6 * d_in, "isometry_fit_on_used_object",
+                        lambda: {"max_error": err_f, "distance_in": float(d_in), "distance_out": float(d_out), "fitted_scaling": float(Af.scaling), "translation": np.asarray(Af.translation).tolist()})
         # ---- maps whose source and destination points are of different kinds: a single point and the matching row of
         # a batch must agree in value and kind, forward and backward
         if n % 2 == 0:
@@ -415,6 +435,21 @@ def run_shard(spec, R):
         R.check(list(out.dimensions) == list(dimg.dimensions) and np.array_equal(np.asarray(out.origin, float), np.asarray(dimg.origin, float))
                 and np.allclose(out.voxel_size, dimg.voxel_size, rtol=0, atol=0) and type(out) is type(img), "destination_metadata", case)
         R.check(np.array_equal(img.img, src), "input_untouched", case)
+        # a destination system with anisotropic voxels (identity map in physical coordinates): the result is labelled
+        # with exactly that system (pixel content is not judged here)
+        if n % 2 == 0:
+            ah = [h * float(rng.choice([2.0, 0.5, 3.0])), h]
+            dimg2 = darsia.Image(np.zeros(dshape), space_dim=2, dimensions=[dshape[0] * ah[0], dshape[1] * ah[1]], scalar=True, origin=o.tolist())
+            pc = darsia.make_coordinate(np.asarray(img.coordinatesystem.coordinate(vox), float))
+            with contextlib.redirect_stdout(io.StringIO()):
+                ok2, ct2 = R.guarded("construct_ct", lambda: darsia.CoordinateTransformation(img.coordinatesystem, dimg2.coordinatesystem, pc, pc, fit_options={"tol": 1e-12, "maxiter": 5000}))
+                if ok2:
+                    ok2, out2 = R.guarded("call_ct", lambda: ct2(img))
+            if ok2:
+                R.check(list(out2.dimensions) == list(dimg2.dimensions) and np.array_equal(np.asarray(out2.origin, float), np.asarray(dimg2.origin, float))
+                        and np.allclose(out2.voxel_size, dimg2.voxel_size, rtol=0, atol=0) and out2.img.shape == dshape, "destination_metadata",
+                        lambda: {**case, "destination_voxel_size": ah, "got_dimensions": list(out2.dimensions), "expected_dimensions": list(dimg2.dimensions)}, group="anisotropic_destination")
+                R.count("anisotropic_destination_systems")
         R.sig(["ct", list(shape), list(dshape), shift, tv.tolist(), isometry, mode], True, cls=f"coordinate_transformation/{mode}")
         if n < 1:
             R.sample(case)
